@@ -198,6 +198,24 @@ pub fn gen_case(ch: &mut Chooser, which: &str) -> Case {
             }
             c.expr = app("append", args);
         }
+        "map" | "for-each" if ch.chance(1, 3) => {
+            // several lists of different lengths: the shortest decides; the procedure takes one argument per list
+            let k = 2 + ch.below(2);
+            let lists: Vec<Datum> = (0..k).map(|_| int_list(ch)).collect();
+            c.nontrivial = lists.iter().map(len_of).min().unwrap_or(0) >= 1;
+            let names: Vec<String> = (0..k).map(|i| format!("e{}", i)).collect();
+            let f = match ch.below(3) {
+                0 => var("+"),
+                1 => var("list"),
+                _ => Expr::Lambda(
+                    Formals { fixed: names.clone(), rest: None },
+                    body1(Expr::App(Box::new(var("tick")), vec![var(&names[0]), app("list", names.iter().map(|n| var(n)).collect())])),
+                ),
+            };
+            let mut args = vec![f];
+            args.extend(lists.into_iter().map(q));
+            c.expr = app(which, args);
+        }
         "map" | "for-each" => {
             let l = if ch.chance(1, 2) { int_list(ch) } else { list_data(ch, 2, false, false) };
             c.nontrivial = len_of(&l) >= 2;
